@@ -114,7 +114,15 @@ static Json frameSession(const Json &a, const Json &fr, int twinOf) {
         std::string k = op.str("op", "");
         if (op.has("poly")) o.set("poly", framePoly(fr, op["poly"]));
         if (k == "moveShape") { Pt d = applyFrame(fr, Pt{op.num("dx", 0), op.num("dy", 0)}, true); o.set("dx", d.x); o.set("dy", d.y); }
-        for (const char *ek : {"src", "dst", "end"}) if (op.has(ek) && op[ek].has("pt")) { Json e = op[ek]; Pt q = applyFrame(fr, Pt{e["pt"][0].num(), e["pt"][1].num()}, false); Json pj = Json::arr(); pj.push(q.x); pj.push(q.y); e.set("pt", pj); o.set(ek, e); }
+        for (const char *ek : {"src", "dst", "end"}) if (op.has(ek) && op[ek].has("pt")) { Json e = op[ek]; Pt q = applyFrame(fr, Pt{e["pt"][0].num(), e["pt"][1].num()}, false); Json pj = Json::arr(); pj.push(q.x); pj.push(q.y); e.set("pt", pj);
+            if (e.has("dirs") && fr.str("kind", "") != "translate") {
+                // direction masks (Up 1, Down 2, Left 4, Right 8) go through the same linear map
+                unsigned d = (unsigned)e.i("dirs", 15), nd = 0;
+                const double vx[4] = {0, 0, -1, 1}, vy[4] = {-1, 1, 0, 0};
+                for (int b = 0; b < 4; b++) if (d & (1u << b)) { Pt v = applyFrame(fr, Pt{vx[b], vy[b]}, true); nd |= v.y < 0 ? 1u : v.y > 0 ? 2u : v.x < 0 ? 4u : 8u; }
+                e.set("dirs", (long)nd);
+            }
+            o.set(ek, e); }
         if (op.has("checkpoints")) { Json cp = Json::arr(); for (auto &q : op["checkpoints"].a) { Pt t = applyFrame(fr, Pt{q[0].num(), q[1].num()}, false); Json pj = Json::arr(); pj.push(t.x); pj.push(t.y); cp.push(pj); } o.set("checkpoints", cp); }
         ops.push(o);
     }
@@ -133,6 +141,7 @@ static Json genC20Frame(uint64_t seed, const std::string &tier) {
     g.selective = true; g.invis = r.chance(0.8); g.lees = r.chance(0.7);
     g.styleExtra = "frame-twin";
     if (r.chance(0.5)) { g.edgePoints = 0.5; g.polygons = false; g.wMove = 0; g.wReshape = 0; g.wAdd = 30; g.wMoveEnd = 40; g.styleExtra = "frame-twin+end-points-on-shape-sides"; }   // end points exactly on shape sides (shapes stay put)
+    if (g.ortho && r.chance(0.3)) { g.dirRestrict = true; g.styleExtra += "+direction-restricted-ends"; }      // the masks are mapped with the frame
     if (tier == "thorough") { g.maxShapes = 10; g.maxConns = 8; }
     Json a = genRouterSession(r, g);
     { Json cfg = a["cfg"]; Json tw = Json::obj(); tw.set("of", -1); cfg.set("twin", tw); a.set("cfg", cfg); }
